@@ -281,3 +281,28 @@ Fixpoint accept_items (items : list str) : res (list (str * option str)) :=
 (* http.parse_accept_header(value) before cls(result) sorts it *)
 Definition parse_accept_items (value : str) : res (list (str * option str)) :=
   match value with [] => Ok [] | _ => accept_items (parse_list_header value) end.
+
+(* ================================================================== Request.args: the field-count and strictness checks of parse_qsl *)
+
+Fixpoint count_char (c : N) (s : str) : N :=
+  match s with [] => 0 | x :: r => (if x =? c then 1 else 0) + count_char c r end.
+
+(* a field without '=' raises in strict mode *)
+Definition has_bare_field (q : str) : bool :=
+  existsb (fun f => match f with [] => false | _ => negb (mem EQ f) end) (split_on 38 q).
+
+(* urllib.parse.parse_qsl(qs, max_num_fields=m, strict_parsing=s): the two ValueErrors it raises by itself *)
+Definition parse_qsl_checks (max_num_fields : option N) (strict : bool) (qs : str) : res unit :=
+  do _ <- match max_num_fields with
+          | Some m => match qs with
+                      | [] => Ok tt
+                      | _ => if m <? 1 + count_char 38 qs then Err ValueError else Ok tt
+                      end
+          | None => Ok tt
+          end;
+  if strict && has_bare_field qs then Err ValueError else Ok tt.
+
+Definition request_args_checks (qs : str) : res unit := parse_qsl_checks args_max_num_fields args_strict_parsing qs.
+
+(* position-weighted sum of a text: a compact pin for a long regex text (the full text is pinned in C13) *)
+Fixpoint weighted_sum (s : str) (i : N) : N := match s with [] => 0 | c :: r => c * i + weighted_sum r (i + 1) end.
